@@ -5,7 +5,7 @@ OPS = [
     {'op': 'prelude', 'text': '#[allow(unused_imports)] use vstd::prelude::*;\n'
                               '#[allow(unused_imports)] use crate::verif_ext::*;\n'
                               '#[allow(unused_imports)] use crate::verif_spec::*;\n'
-                              '#[allow(unused_imports)] use vstd::std_specs::iter::IteratorSpec;\n#[allow(unused_imports)] use crate::model::DelimiterTag as _DT;\n'
+                              '#[allow(unused_imports)] use crate::model::DelimiterTag as _DT;\n'
                               'verus! { broadcast use {crate::verif_ext::group_ipp_seq, crate::verif_ext::axiom_string_key_model, vstd::std_specs::hash::group_hash_axioms, crate::verif_ext::group_ipp_machine}; }'},
     {'op': 'wrap', 'items': ['fn is_header_attr', 'struct IppAttribute', 'impl IppAttribute', 'struct IppAttributeGroup',
                              'impl IppAttributeGroup', 'struct IppAttributes', 'impl IppAttributes']},
@@ -69,8 +69,8 @@ proof fn lemma_header_attrs_ok()
     {'op': 'fn', 'path': 'IppAttributes::into_groups', 'ret': 'r', 'spec': '    ensures r@ == self.sgroups(),'},
     {'op': 'fn', 'path': 'IppAttributes::groups_of', 'ret': 'r', 'attrs': ['#[verifier::external_body]'],
      'spec': '''    ensures
-        r.obeys_prophetic_iter_laws(),
-        r.remaining().map_values(|g: &IppAttributeGroup| *g) == groups_with(self.sgroups(), tag),'''},
+        it_laws(r),
+        it_rem(r).map_values(|g: &IppAttributeGroup| *g) == groups_with(self.sgroups(), tag),'''},
     {'op': 'fn', 'path': 'IppAttributes::add', 'attrs': ['#[verifier::external_body]'],
      'spec': '''    ensures abs_groups(*final(self)) == spec_add(abs_groups(*old(self)), tag, attribute.sname(), aval(attribute.sval())),'''},
     {'op': 'fn', 'path': 'IppAttributes::to_bytes', 'ret': 'r',
@@ -83,15 +83,15 @@ proof fn lemma_header_attrs_ok()
          0: {'iter_name': 'it1', 'spec': '''
                 invariant
                     m == group.sattrs(), attrs_sizes(m), wf ==> attrs_wf(m), hs == IppAttribute::HEADER_ATTRS@,
-                    it1.snapshot@.remaining().len() == hs.len(),
-                    forall|q: int| 0 <= q < hs.len() ==> *(#[trigger] it1.snapshot@.remaining()[q]) == hs[q],
+                    it_rem(it1.snapshot@).len() == hs.len(),
+                    forall|q: int| 0 <= q < hs.len() ==> *(#[trigger] it_rem(it1.snapshot@)[q]) == hs[q],
                     wf ==> buf_seq(&buffer) == s1(0x01) + keys_enc(m, ops, ops.len()),
                     wf ==> loop1_inv(m, hs, ops, qs, it1.index@),
 '''},
          2: {'iter_name': 'it3', 'spec': '''
             invariant
                 gs == self.sgroups(), groups_sizes(gs), wf == groups_wf(gs),
-                forall|i: int| 0 <= i < it3.snapshot@.remaining().len() ==> from_groups(gs, *(#[trigger] it3.snapshot@.remaining()[i])),
+                forall|i: int| 0 <= i < it_rem(it3.snapshot@).len() ==> from_groups(gs, *(#[trigger] it_rem(it3.snapshot@)[i])),
                 wf ==> buf_seq(&buffer) == pre + others_enc(gs, others, others.len()),
                 wf ==> others_ok(gs, others),
 '''},
@@ -100,17 +100,17 @@ proof fn lemma_header_attrs_ok()
          {'loop': 1, 'kind': 'values', 'iter_name': 'it2', 'spec': '''
                 invariant
                     m == group.sattrs(), attrs_sizes(m), wf ==> attrs_wf(m), hs == IppAttribute::HEADER_ATTRS@, hdrs_ok(hs),
-                    iter_facts(m, it2.snapshot@.remaining()),
+                    iter_facts(m, it_rem(it2.snapshot@)),
                     wf ==> buf_seq(&buffer) == s1(0x01) + keys_enc(m, ops, ops.len()),
                     wf ==> loop1_inv(m, hs, ops1, qs, hs.len() as int),
-                    wf ==> loop2_inv(m, ops1, iter_keys(it2.snapshot@.remaining()), ops, ps, it2.index@),
+                    wf ==> loop2_inv(m, ops1, iter_keys(it_rem(it2.snapshot@)), ops, ps, it2.index@),
 '''},
          {'loop': 3, 'kind': 'values', 'iter_name': 'it4', 'spec': '''
                 invariant
                     mg == group.sattrs(), attrs_sizes(mg), wf ==> attrs_wf(mg),
-                    iter_facts(mg, it4.snapshot@.remaining()),
-                    wf ==> cur =~= iter_keys(it4.snapshot@.remaining()).take(it4.index@),
-                    wf && it4.index@ == it4.snapshot@.remaining().len() ==> key_perm(cur, mg),
+                    iter_facts(mg, it_rem(it4.snapshot@)),
+                    wf ==> cur =~= iter_keys(it_rem(it4.snapshot@)).take(it4.index@),
+                    wf && it4.index@ == it_rem(it4.snapshot@).len() ==> key_perm(cur, mg),
                     wf ==> buf_seq(&buffer) == base + s1(group.stag() as u8) + keys_enc(mg, cur, cur.len()),
 '''},
      ],
@@ -152,7 +152,7 @@ proof fn lemma_header_attrs_ok()
 '''},
          {'loop': 1, 'where': 'body_start', 'text': '''
                 let ghost p = it2.index@;
-                let ghost vks = iter_keys(it2.snapshot@.remaining());
+                let ghost vks = iter_keys(it_rem(it2.snapshot@));
                 proof {
                     assert(m.contains_key(vks[p]) && m[vks[p]] == *attr);
                     if wf { crate::verif_lemmas::lemma_loop2_step(m, ops1, vks, ops, ps, p, target_rank(m[vks[p]].sname()) == 4); }
@@ -181,9 +181,9 @@ proof fn lemma_header_attrs_ok()
             let ghost mut cur: Seq<String> = Seq::empty();
 '''},
          {'loop': 3, 'where': 'body_start', 'text': '''
-                let ghost vks = iter_keys(it4.snapshot@.remaining());
+                let ghost vks = iter_keys(it_rem(it4.snapshot@));
                 let ghost k = vks[it4.index@];
-                proof { crate::verif_lemmas::lemma_iter_keys(mg, it4.snapshot@.remaining()); }
+                proof { crate::verif_lemmas::lemma_iter_keys(mg, it_rem(it4.snapshot@)); }
                 proof { assert(mg.contains_key(k) && mg[k] == *attr); }
 '''},
          {'loop': 3, 'where': 'body_end', 'text': '''
